@@ -160,6 +160,24 @@ Theorem C09_explicit_overrides_default : forall (jitter : nat -> Q -> Q) row row
 Proof. exact explicit_overrides_default. Qed.
 Print Assumptions C09_explicit_overrides_default.
 
+(* paged methods: every page request of a listing is a call with the caller's arguments; an explicit timeout is carried
+   by the first attempt of every page *)
+Theorem C09_listing_every_page : forall (jitter : nat -> Q -> Q) row retry timeout scripts i s,
+  nth_error scripts i = Some s ->
+  nth_error (listing jitter row retry timeout scripts) i = Some (call jitter row retry timeout s).
+Proof. exact listing_every_page. Qed.
+Print Assumptions C09_listing_every_page.
+
+Theorem C09_listing_explicit_timeout : forall jitter : nat -> Q -> Q,
+  (forall i d, 0 <= d -> 0 <= jitter i d /\ jitter i d <= d) ->
+  forall row row' retry T scripts i rep rest,
+  nth_error scripts i = Some (rep :: rest) ->
+  exists tr x, nth_error (listing jitter row retry (Given (Some T)) scripts) i = Some tr /\
+               nth_error (listing jitter row' retry (Given (Some T)) scripts) i = Some (call jitter row' retry (Given (Some T)) (rep :: rest)) /\
+               hd_error (t_timeouts tr) = Some (Some x) /\ x == T.
+Proof. exact listing_explicit_timeout. Qed.
+Print Assumptions C09_listing_explicit_timeout.
+
 (* the code as it is *)
 Theorem C09_ok_code_catches_everything :
   exists k, class_of_code "OK" = Some k /\ forallb (fun c => class_accepts k c) ERR_CODES = true.
